@@ -390,9 +390,9 @@ Definition grow_access {T} (zero : T) (limit : Z) (s : list T) (i : Z) : res (li
   else if i <? 0 then Panic PIndex
   else Ok s.
 
-(* Frame.Port(i): "if i >= len(fm.ports) { return nil }; return fm.ports[i]" *)
+(* Frame.Port(i): "if i < 0 || i >= len(fm.ports) { return nil }; return fm.ports[i]" *)
 Definition frame_port (ports : list (option port)) (i : Z) : res (option port) :=
-  if i >=? zlen ports then Ok None else idx ports i.
+  if (i <? 0) || (i >=? zlen ports) then Ok None else idx ports i.
 
 (* what a redirection operand evaluates to *)
 Inductive fdval :=
@@ -423,12 +423,17 @@ Record redir := mkRedir { r_dst : option fdval; r_mode : rmode; r_src : rsrc }.
 
 Definition pstate := (list (option port) * list fop)%type.
 
+(* the destination fd: default by mode, or the evaluated left operand with
+   "if dst < 0 { return InvalidFD }" *)
+Definition dst_eval (r : redir) : res Z :=
+  match r_dst r with
+  | None => Ok (match r_mode r with MRead => 0 | _ => 1 end)
+  | Some v => bind (eval_for_fd v false) (fun d => if d <? 0 then Err EInvalidFD else Ok d)
+  end.
+
 Definition redir_exec (limit : Z) (st : pstate) (r : redir) : res pstate :=
   let '(ports, fops) := st in
-  bind (match r_dst r with
-        | None => Ok (match r_mode r with MRead => 0 | _ => 1 end)
-        | Some v => eval_for_fd v false
-        end) (fun dst =>
+  bind (dst_eval r) (fun dst =>
   bind (grow_access (@None port) limit ports dst) (fun ports1 =>
   bind (grow_access (mkFop false false) limit fops dst) (fun fops1 =>
   bind (idx ports1 dst) (fun cur =>
@@ -440,7 +445,7 @@ Definition redir_exec (limit : Z) (st : pstate) (r : redir) : res pstate :=
   | SrcFd v =>
     bind (eval_for_fd v true) (fun src =>
     if src =? -1 then bind (sto ports1 dst (Some PClosed)) (fun p => Ok (p, fops2))
-    else if src >=? zlen ports1 then Err EInvalidFD
+    else if (src <? 0) || (src >=? zlen ports1) then Err EInvalidFD
     else bind (idx ports1 src) (fun sp =>
          match sp with
          | None => Err EInvalidFD
@@ -530,7 +535,9 @@ Definition set_frac (a b : Z) : res (Z * Z) :=
   Ok (s * (a / g), s * (b / g)).
 
 Definition pow_exact (bn bd e : Z) : res (Z * Z) :=
-  if e =? 0 then Ok (1, 1)
+  (* "if base == 0 && exp.Sign() < 0 { return ErrDivideByZero }" (a bad-value error) *)
+  if (bn =? 0) && (e <? 0) then Err EBadValue
+  else if e =? 0 then Ok (1, 1)
   else if e =? 1 then Ok (bn, bd)
   else if e =? -1 then rat_inv bn bd
   else if (bd =? 1) && (e >? 0) then Ok (Z.pow bn e, 1)
@@ -546,8 +553,6 @@ Definition pow_exact (bn bd e : Z) : res (Z * Z) :=
 Section Subseq.
   (* utf8.DecodeRuneInString: (rune, width); width 0 only for the empty string *)
   Variable dec : bytes -> N * nat.
-  (* len(string(p)) *)
-  Variable rune_len : N -> nat.
 
   (* strings.IndexRune(s, p): byte offset of the first position whose decoded
      rune equals p (for p = RuneError this includes invalid bytes) *)
@@ -564,7 +569,7 @@ Section Subseq.
       end
     end.
 
-  (* for _, p := range t { i := IndexRune(s, p); if i == -1 {return false}; s = s[i+len(string(p)):] } *)
+  (* for _, p := range t { i := IndexRune(s, p); if i == -1 {return false}; s = s[i+size:] } *)
   Fixpoint has_subseq (fuel : nat) (s t : bytes) : res bool :=
     match fuel with
     | O => Ok true
@@ -576,8 +581,11 @@ Section Subseq.
         match index_rune (S (length s)) s p 0 with
         | None => Ok false
         | Some i =>
-          bind (slc s (Z.of_nat (i + rune_len p)) (zlen s)) (fun s' =>
-          has_subseq f s' (skipn (Nat.max w 1) t))
+          (* "_, size := utf8.DecodeRuneInString(s[i:]); s = s[i+size:]" *)
+          bind (slc s (Z.of_nat i) (zlen s)) (fun si =>
+          let '(_, size) := dec si in
+          bind (slc s (Z.of_nat (i + size)) (zlen s)) (fun s' =>
+          has_subseq f s' (skipn (Nat.max w 1) t)))
         end
       end
     end.
@@ -673,7 +681,7 @@ Definition judge_pow bn bd e (o : obs (Z * Z)) : N :=
        (agree (fun (a b : Z * Z) => (fst a =? fst b) && (snd a =? snd b)) (pow_exact bn bd e) o).
 
 Definition go_has_subseq (s t : bytes) : res bool :=
-  has_subseq Utf8.decode_rune Utf8.rune_len (S (length t)) s t.
+  has_subseq Utf8.decode_rune (S (length t)) s t.
 
 Definition judge_subseq (s t : bytes) (o : obs bool) : N :=
   code (check_C17 o) (agree Bool.eqb (go_has_subseq s t) o).
